@@ -1,6 +1,51 @@
 """Contracts for src/setup.rs (RFC 9180 §5.1 KeySchedule, SetupS/SetupR for the four modes)."""
 
+NH = 'nh_of::<Kdf::HashImpl>()'
+NK = 'nk_of::<A::AeadImpl>()'
+NN = 'nn_of::<A::AeadImpl>()'
+SUITE = 'full_suite_id_spec(Kem::KEM_ID, Kdf::KDF_ID, A::AEAD_ID)'
+NSK = 'tnum::<<Kem::PrivateKey as crate::Serializable>::OutputSize>()'
+
+def sched(mode, ss, pub=True):
+    m = ('mode_byte', 'psk_bytes', 'psk_id_bytes') if pub else ('m_mode', 'm_psk', 'm_psk_id')
+    return (f'ctx_from_schedule(key_schedule_spec({NH}, {SUITE}, {mode}.MODE(), {ss}, info@, '
+            f'{mode}.PSK(), {mode}.PSKID(), {NK}, {NN}), {SUITE})').replace('MODE', m[0]).replace('PSKID', m[2]).replace('PSK', m[1])
+
 def apply(F):
     F.use()
     F.wrap([], r'pub\(crate\) struct ExporterSecret<K: KdfTrait>')
     F.wrap([], r'impl<K: KdfTrait> Default for ExporterSecret<K>')
+
+    F.contract([], r'fn derive_enc_ctx<A, Kdf, Kem, O>', ret='r', clauses=f'''
+    requires suite_ok::<A, Kdf>(),
+    ensures /*@C02 C01 C07 C08 C11 C15*/ r.view() == {sched('mode', 'shared_secret.0.gv()', pub=False)},
+''')
+    F.wrap([], r'fn derive_enc_ctx<A, Kdf, Kem, O>')
+
+    F.contract([], r'pub fn setup_sender<A, Kdf, Kem, R>', ret='r', clauses=f'''
+    requires suite_ok::<A, Kdf>(),
+    ensures
+        /*@C18 C02*/ rng_stream::<R>(final(csprng)) == rng_stream::<R>(old(csprng)).skip({NSK} as int),
+        /*@C02 C01 C03 C08 C10 C13 C14*/ ({{
+            let sk_e = Kem::k_derive(rng_stream::<R>(old(csprng)).take({NSK} as int)).0;
+            let e = Kem::k_encap(pk_recip.ser(), crate::kem::opt_pair_ser(mode.sender_keypair()), sk_e);
+            &&& r is Ok <==> e is Some
+            &&& r is Err ==> r == Err::<(Kem::EncappedKey, AeadCtxS<A, Kdf, Kem>), HpkeError>(HpkeError::EncapError)
+            &&& r is Ok ==> r.unwrap().0.ser() == e.unwrap().1
+                         && r.unwrap().1.view() == {sched('mode', 'e.unwrap().0')}
+        }}),
+''')
+    F.wrap([], r'pub fn setup_sender<A, Kdf, Kem, R>')
+
+    F.contract([], r'pub fn setup_receiver<A, Kdf, Kem>', ret='r', clauses=f'''
+    requires suite_ok::<A, Kdf>(),
+    ensures
+        /*@C02 C01 C03 C08 C10 C13 C14*/ ({{
+            let d = Kem::k_decap(sk_recip.ser(), crate::kem::opt_ser(mode.sender_pk()), encapped_key.ser());
+            &&& r is Ok <==> d is Some
+            &&& r is Err ==> r == Err::<AeadCtxR<A, Kdf, Kem>, HpkeError>(HpkeError::DecapError)
+            &&& r is Ok ==> r.unwrap().view() == {sched('mode', 'd.unwrap()')}
+        }}),
+''')
+    F.wrap([], r'pub fn setup_receiver<A, Kdf, Kem>')
+    F.append('verus!{ broadcast use {ga_len, crate::aead::AeadCtxS::from_spec_view, crate::aead::AeadCtxR::from_spec_view}; }')
